@@ -815,4 +815,156 @@ example : newVoterSet cexWs = some cexVs ∧ Mono okChain okPcs ∧ Tolerant cex
     (∀ p ∈ okPcs, p.num + okChain.par.length + 1 < 2 ^ 32) :=
   ⟨by decide, by unfold Mono; decide, by unfold Tolerant; decide, legal_pickAway _ _, by decide, by decide⟩
 
+/-! ## call sites -/
+
+/-- `GetSetIDByBlockNumber`: the set id `j` returned for block number `n` satisfies
+    `change j < n ≤ change (j+1)` (no lower bound for set 0, no upper bound for the last set) -/
+theorem setIdLoop_spec (g : GState) (n : Nat) : ∀ (fuel curr j : Nat), curr + 1 ≤ fuel →
+    (g.changeAt (curr + 2) = none ∨ ∃ u, g.changeAt (curr + 2) = some u ∧ n ≤ u) →
+    setIdLoop g n fuel curr = some j →
+    (j = 0 ∨ ∃ l, g.changeAt j = some l ∧ l < n) ∧
+    (g.changeAt (j + 1) = none ∨ ∃ u, g.changeAt (j + 1) = some u ∧ n ≤ u) := by
+  intro fuel
+  induction fuel with
+  | zero => intro curr j hf; omega
+  | succ fuel ih =>
+    intro curr j hf hq h
+    simp only [setIdLoop] at h
+    cases hu : g.changeAt (curr + 1) with
+    | none =>
+      simp only [hu] at h
+      split at h
+      · rename_i h0; subst h0
+        simp only [Option.some.injEq] at h; subst h
+        exact ⟨Or.inl rfl, Or.inl hu⟩
+      · rename_i h0
+        apply ih (curr - 1) j (by omega) _ h
+        left
+        have : curr - 1 + 2 = curr + 1 := by omega
+        rw [this]; exact hu
+    | some upper =>
+      simp only [hu] at h
+      cases hl : g.changeAt curr with
+      | none => simp [hl] at h
+      | some lower =>
+        simp only [hl] at h
+        split at h
+        · rename_i hc
+          simp only [Option.some.injEq] at h; subst h
+          exact ⟨Or.inr ⟨lower, hl, hc.2⟩, Or.inr ⟨upper, hu, hc.1⟩⟩
+        · rename_i hc
+          split at h
+          · rename_i hgt
+            simp only [Option.some.injEq] at h; subst h
+            exact ⟨Or.inr ⟨upper, hu, hgt⟩, hq⟩
+          · rename_i hle
+            split at h
+            · rename_i h0; subst h0
+              simp only [Option.some.injEq] at h; subst h
+              exact ⟨Or.inl rfl, Or.inr ⟨upper, hu, by omega⟩⟩
+            · rename_i h0
+              apply ih (curr - 1) j (by omega) _ h
+              right
+              have : curr - 1 + 2 = curr + 1 := by omega
+              rw [this]; exact ⟨upper, hu, by omega⟩
+
+theorem C19_set_lookup {g : GState} (hlen : g.changeAt (g.cur + 2) = none) {n j : Nat}
+    (h : setIdAt g n = some j) :
+    (j = 0 ∨ ∃ l, g.changeAt j = some l ∧ l < n) ∧
+    (g.changeAt (j + 1) = none ∨ ∃ u, g.changeAt (j + 1) = some u ∧ n ≤ u) :=
+  setIdLoop_spec g n (g.cur + 2) g.cur j (by omega) (Or.inl hlen) h
+
+theorem mem_resign {sset sid : Nat} {pcs : List Pre} {q : Pre} (h : q ∈ resign sset sid pcs) :
+    ∃ p ∈ pcs, q = { p with sigok := p.sigok && sset == sid } := by
+  unfold resign at h
+  obtain ⟨p, hp, rfl⟩ := List.mem_map.1 h
+  exact ⟨p, hp, rfl⟩
+
+/-- `Service.VerifyBlockJustification` accepts only a justification that is valid for the (unit
+    weight) voter set of the set id the imported block's number maps to, whose commit target is the
+    imported block, and whose precommits are all signed for that set id -/
+theorem C19_wrapper_sound {pick : List Nat → Nat} (hp : LegalPick pick) {g : GState}
+    {ibBlk ibNum sset : Nat} {c : Chain} {tBlk tNum : Nat} {pcs : List Pre} {sid : Nat}
+    (h : wrapper pick false g ibBlk ibNum sset c tBlk tNum pcs = .ok sid) :
+    setIdAt g ibNum = some sid ∧ tBlk = ibBlk ∧ tNum = ibNum % 2 ^ 32 ∧
+    ∃ a, g.authsAt sid = some a ∧
+      ValidCore 32 (unitWs a) c tBlk tNum (resign sset sid pcs) ∧
+      (Tolerant (unitWs a) (resign sset sid pcs) → Valid 32 (unitWs a) c tBlk tNum (resign sset sid pcs)) ∧
+      sset = sid ∧ ∀ p ∈ pcs, p.sigok = true := by
+  unfold wrapper at h
+  cases hs : setIdAt g ibNum with
+  | none => simp [hs] at h
+  | some sid' =>
+    simp only [hs] at h
+    cases ha : g.authsAt sid' with
+    | none => simp [ha] at h
+    | some a =>
+      simp only [ha, Bool.false_eq_true, if_false] at h
+      cases hv : newVoterSet (unitWs a) with
+      | none => simp [hv] at h
+      | some vs =>
+        simp only [hv] at h
+        cases hr : verifyFinalizes pick 32 vs c tBlk tNum ibBlk (ibNum % 2 ^ 32) (resign sset sid' pcs) with
+        | ok =>
+          simp only [hr, WRes.ok.injEq] at h
+          subst h
+          unfold verifyFinalizes at hr
+          split at hr
+          · cases hr
+          · rename_i hne
+            have htb : tBlk = ibBlk := by
+              apply Classical.byContradiction; intro e; exact hne (Or.inl e)
+            have htn : tNum = ibNum % 2 ^ 32 := by
+              apply Classical.byContradiction; intro e; exact hne (Or.inr e)
+            have hacc : accept pick 32 vs c tBlk tNum (resign sset sid' pcs) = true := by
+              unfold accept; rw [hr]; rfl
+            have hcore := C19_sound hp hv hacc
+            have hsig : ∀ p ∈ pcs, (p.sigok && sset == sid') = true := by
+              intro p hpm
+              have := hcore.sigs { p with sigok := p.sigok && sset == sid' }
+                (by unfold resign; exact List.mem_map.2 ⟨p, hpm, rfl⟩)
+              exact this
+            have hnonempty : pcs ≠ [] := by
+              intro e
+              obtain ⟨lo, hlo, _⟩ := hcore.ancestry
+              rw [e] at hlo; simp [resign] at hlo
+            have hset : sset = sid' := by
+              cases pcs with
+              | nil => exact absurd rfl hnonempty
+              | cons p ps =>
+                have := hsig p (by simp)
+                simp only [Bool.and_eq_true, beq_iff_eq] at this
+                exact this.2
+            refine ⟨rfl, htb, htn, a, ha, hcore, fun ht => C19_ghost_maximal hp hv ht hacc, hset, ?_⟩
+            intro p hpm
+            have := hsig p hpm
+            simp only [Bool.and_eq_true] at this
+            exact this.1
+        | errTarget => simp [hr] at h
+        | errCommit => simp [hr] at h
+        | errSig => simp [hr] at h
+        | errAncestry => simp [hr] at h
+        | errUnused => simp [hr] at h
+
+/-- the importer finalises a block (with the round and set id the finality gadget returned) only when
+    the gadget accepted the justification; every failure leaves the block state unfinalised -/
+theorem C19_importer_sound (hasJust : Bool) (gadget : Option (Nat × Nat)) (ff jf : Bool) (r s : Nat)
+    (h : importData hasJust gadget ff jf = .finalised r s) :
+    hasJust = true ∧ gadget = some (r, s) := by
+  unfold importData at h
+  split at h
+  · rename_i hj
+    cases gadget with
+    | none => simp at h
+    | some rs =>
+      obtain ⟨r', s'⟩ := rs
+      simp only at h
+      split at h
+      · cases h
+      · split at h
+        · cases h
+        · simp only [ImpRes.finalised.injEq] at h
+          exact ⟨hj, by rw [h.1, h.2]⟩
+  · cases h
+
 end Gossamer.C19
